@@ -344,6 +344,8 @@ C10.manifest = {
             "each node once, same set iff connected) for every state whose adjacency is symmetric and closed (again an "
             "executable test, proved to imply the hypothesis); number_of_connected_components is the length, "
             "node_connected_component(x) the class of x, NodeNotFound for an absent name, WrongMethod on the other kind; "
+            "strongly_connected_components (the iterative preorder/low-link loop), for EVERY neighbour iteration order: the "
+            "emitted sets are non-empty, no node occurs twice and every node is in one of them (18-clause stack invariant); "
             "(3) bfs_equal_size_partitions(k): every returning run has k >= 1, exactly k parts, every node index in exactly one "
             "part, no part longer than n/k+1; (4) a VERIFIED CHECKER: check_components g rel comps = true implies that comps is "
             "the partition of the node list by reachability over the stored EDGE LIST (ignoring direction / both "
@@ -352,10 +354,10 @@ C10.manifest = {
             "all component sets, counts, per-node components (every node + an absent name), BFS from every node, "
             "bfs_equal_size_partitions for k=1..n+2 are compared, and a Python oracle re-checks the partition / "
             "reachability / size statements directly on the implementation's output.",
-    "note": "strongly_connected_components: no unbounded theorem about the iterative low-link loop itself (stretch, "
-            "DESIGN.md F.3); its exact correctness is established per generated graph by the verified checker on the "
-            "model's output (under two neighbour iteration orders, which must agree) plus model/implementation equality "
-            "plus the oracle. Termination / no index panic of bfs_equal_size_partitions and the fuel of plain_bfs and of the "
+    "note": "strongly_connected_components: the partition part (non-empty, disjoint, covering) is an unbounded theorem; "
+            "that two nodes share a set IFF they are mutually reachable is NOT proved for the loop (stretch, DESIGN.md "
+            "F.3) - it is established per generated graph by the verified checker on the model's output (under two "
+            "neighbour iteration orders, which must agree) plus model/implementation equality plus the oracle. Termination / no index panic of bfs_equal_size_partitions and the fuel of plain_bfs and of the "
             "SCC loop are validated per case (an OutOfFuel/Panic outcome of the model would differ from the implementation), "
             "not proved. The BFS/partition theorems speak about reachability along the adjacency query the function reads; "
             "that this adjacency agrees with the edge list is checked per case (coherence tests + edge-list checker), its "
